@@ -3,18 +3,41 @@
 
 def register(R):
     R.module("easynetwork/exceptions.py")
-    # Resync(B, c, sep) is an abstract function here; its defining property is proved for LimitOverrunError.__init__
-    # and consumed by the lemmas (ResyncSafe).  Callers only need: remaining_data == Resync(buffer, consumed, separator).
+    R.shape("LimitOverrunError", cls="LimitOverrunError",
+            fields={"consumed": "int", "remaining_data": "bytes", "error_info": "opt[obj]", "args": "obj"})
+    R.shape("IncrementalDeserializeError", cls="IncrementalDeserializeError",
+            fields={"remaining_data": "bytes", "error_info": "opt[obj]", "args": "obj"})
+    R.shape("DeserializeError", cls="DeserializeError", fields={"error_info": "opt[obj]", "args": "obj"})
+
+    # Resync(B, c, sep) (pyvc/smt.py, definitional):  B[c+|sep|:] if sep occurs at c, else B[k:] with k the least
+    # index >= c such that k == |B| or B[k:] is a (partial) match of sep.
     R.contract(
         "LimitOverrunError.__init__",
         params={"message": "str", "buffer": "bytes", "consumed": "int", "separator": "bytes"},
         self_shape="LimitOverrunError",
         requires=[("consumed-in-range", "0 <= consumed and consumed <= len(buffer)")],
+        loops={
+            1: {
+                "inv": [
+                    "seplen == len(separator)", "seplen >= 1",
+                    "len(remaining_data) <= len(buffer) - consumed",
+                    "remaining_data == buffer[len(buffer) - len(remaining_data):]",
+                    "not occ(buffer, separator, consumed)",
+                    "forall(lambda j: not pm(buffer, separator, j), consumed, len(buffer) - len(remaining_data))",
+                ],
+                "variant": "len(remaining_data)",
+                "exit_hints": [("stopped-on-partial-match-or-end",
+                                "len(remaining_data) == 0 or pm(buffer, separator, len(buffer) - len(remaining_data))")],
+                "body_hints": [("skipped-position-is-no-match",
+                                "len(remaining_data) >= 1 and not pm(buffer, separator, len(buffer) - len(remaining_data))")],
+            }
+        },
         ensures=[
             ("consumed", "self.consumed == consumed", "C02"),
-            ("remainder", "self.remaining_data == fn('Resync', 'bytes', buffer, consumed, separator)", "C02"),
+            ("remainder", "self.remaining_data == Resync(buffer, consumed, separator)", "C02"),
+            ("error-info", "isnone(self.error_info)"),
         ],
         modifies=["self.consumed", "self.remaining_data", "self.error_info", "self.args"],
-        trusted=True,  # replaced by a verified contract in c_exceptions_body (loop proof)
+        tags="C02",
     )
-    R.shape("LimitOverrunError", cls="LimitOverrunError", fields={"consumed": "int", "remaining_data": "bytes", "error_info": "obj", "args": "obj"})
+    R.group("C02", "LimitOverrunError.__init__")
